@@ -951,10 +951,36 @@ package quic
 //@ iface (s handshake.ShortHeaderSealer) KeyPhase
 //@   modifies nothing
 
+//@ iface (fb quic.QUICFlightFrameBuilder) BuildFlight
+//@   modifies nothing
+
+//@ func (p *uPacketPacker) initialFrameBudget
+//@   props C10 C09
+//@   requires p.packetPacker != nil && sealer != nil && 0 <= packetSize && packetSize <= 1048576
+//@   ensures [non-negative] result >= 0 && result <= packetSize
+//@   modifies nothing
+
+//@ func (p *uPacketPacker) flightBudgets
+//@   props C10 C09
+//@   requires p.uSpec != nil && p.packetPacker != nil && sealer != nil && 0 <= cryptoLen && cryptoLen <= 1048576 && 0 <= maxSize && maxSize <= 65536 && len(p.uSpec.InitialPacketSpec.InitialPackets) <= 65536
+//@   requires forall(k, 0, len(p.uSpec.InitialPacketSpec.InitialPackets), p.uSpec.InitialPacketSpec.InitialPackets[k].PacketSize <= 1048576)
+//@   ensures [at-least-one] len(result) >= 1
+//@   ensures [pinned-length] implies(len(p.uSpec.InitialPacketSpec.InitialPackets) > 0, len(result) == len(p.uSpec.InitialPacketSpec.InitialPackets))
+//@   modifies nothing
+//@ loop (p *uPacketPacker) flightBudgets #0
+//@   invariant len(budgets) == n && n >= 1 && isfresh(budgets)
+//@   modifies budgets[*]
+
 //@ func (p *uPacketPacker) planInitialFlight
-//@   trusted plans a whole flight when the spec's builder is a QUICFlightFrameBuilder (its pieces are under contract: PopAllCryptoData, validateInitialFlight, the range builders); assumed: without a resulting plan the Initial stream is untouched
-//@   ensures implies(result == nil && len(p.flightPayloads) == 0, p.packetPacker.initialStream.writeOffset == old(p.packetPacker.initialStream.writeOffset))
-//@   ensures p.uSpec == old(p.uSpec) && p.initialDatagramIdx == old(p.initialDatagramIdx) && p.packetPacker == old(p.packetPacker) && p.packetPacker.initialStream == old(p.packetPacker.initialStream)
+//@   props C10 C09
+//@   requires p.uSpec != nil && p.packetPacker != nil && p.packetPacker.initialStream != nil && sealer != nil && 0 <= maxSize && maxSize <= 65536
+//@   requires 0 <= p.packetPacker.initialStream.writeOffset && p.packetPacker.initialStream.writeOffset <= 4611686018427387903 && len(p.packetPacker.initialStream.writeBuf) <= 1048576 && len(p.uSpec.InitialPacketSpec.InitialPackets) <= 65536
+//@   requires forall(k, 0, len(p.uSpec.InitialPacketSpec.InitialPackets), p.uSpec.InitialPacketSpec.InitialPackets[k].PacketSize <= 1048576)
+//@   ensures [once] implies(old(p.flightPlanned), result == nil && called("(quic.QUICFlightFrameBuilder).BuildFlight") == 0 && len(p.flightPayloads) == old(len(p.flightPayloads)))
+//@   ensures [plan-is-validated-before-use] implies(len(p.flightPayloads) != old(len(p.flightPayloads)) || !samearray(p.flightPayloads, old(p.flightPayloads)), result == nil && called("validateInitialFlight") == 1 && lastresult("validateInitialFlight") == nil)
+//@   ensures [rejected-plan-is-not-kept] implies(result != nil, len(p.flightPayloads) == old(len(p.flightPayloads)) && samearray(p.flightPayloads, old(p.flightPayloads)))
+//@   ensures [no-plan-no-consumption] implies(result == nil && len(p.flightPayloads) == 0, p.packetPacker.initialStream.writeOffset == old(p.packetPacker.initialStream.writeOffset))
+//@   ensures [wiring-kept] p.uSpec == old(p.uSpec) && p.initialDatagramIdx == old(p.initialDatagramIdx) && p.packetPacker == old(p.packetPacker) && p.packetPacker.initialStream == old(p.packetPacker.initialStream)
 //@   modifies p.flightPlanned, p.flightPayloads, p.packetPacker.initialStream.writeOffset, p.packetPacker.initialStream.writeBuf
 //@ func (p *uPacketPacker) packPlannedInitial
 //@   trusted serialises one planned datagram through appendInitialPacketPayload (under contract)
@@ -967,25 +993,32 @@ package quic
 //@   trusted quic-go's payload composition (ACK + CRYPTO + retransmissions) for one encryption level
 //@   modifies everything
 //@ func (p *packetPacker) longHeaderPacketLength
-//@   trusted
+//@   props C10
+//@   requires hdr != nil && len(hdr.Token) <= 65536 && 0 <= pl.length && pl.length <= 1048576
+//@   ensures [header-plus-padded-payload] result == wire.hdrlen(int(hdr.DestConnectionID.l), int(hdr.SrcConnectionID.l), int(hdr.PacketNumberLen), hdr.Type == protocol.PacketTypeInitial, len(hdr.Token)) + max(pl.length, 4 - hdr.PacketNumberLen)
 //@   modifies nothing
 //@ func (p *packetPacker) shortHeaderPacketLength
-//@   trusted
+//@   props C10
+//@   requires 0 <= pl.length && pl.length <= 1048576
+//@   ensures [header-plus-padded-payload] result == 1 + connID.l + pnLen + max(pl.length, 4 - pnLen)
 //@   modifies nothing
 //@ func (p *packetPacker) maybeGetShortHeaderPacket
-//@   trusted
+//@   trusted quic-go packet assembly after the Initial CRYPTO budget has been fixed; PackCoalescedPacket is examined only up to that point (opt cutafter), so this contract is never relied on beyond "anything may change"
 //@   modifies everything
 //@ func (p *packetPacker) maybeGetAppDataPacketFor0RTT
-//@   trusted
+//@   trusted quic-go packet assembly after the Initial CRYPTO budget has been fixed; PackCoalescedPacket is examined only up to that point (opt cutafter), so this contract is never relied on beyond "anything may change"
 //@   modifies everything
 //@ func (p *packetPacker) initialPaddingLen
-//@   trusted
+//@   props C10
+//@   requires 0 <= currentSize && 0 <= maxPacketSize
+//@   ensures [up-to-datagram-size] result == 0 || result == maxPacketSize - currentSize
+//@   ensures [client-always-pads] implies(p.perspective != protocol.PerspectiveServer && currentSize < maxPacketSize, result == maxPacketSize - currentSize)
 //@   modifies nothing
 //@ func (p *packetPacker) appendLongHeaderPacket
-//@   trusted
+//@   trusted quic-go packet assembly after the Initial CRYPTO budget has been fixed; PackCoalescedPacket is examined only up to that point (opt cutafter), so this contract is never relied on beyond "anything may change"
 //@   modifies everything
 //@ func (p *packetPacker) appendShortHeaderPacket
-//@   trusted
+//@   trusted quic-go packet assembly after the Initial CRYPTO budget has been fixed; PackCoalescedPacket is examined only up to that point (opt cutafter), so this contract is never relied on beyond "anything may change"
 //@   modifies everything
 //@ func (p *uPacketPacker) appendInitialPacket
 //@   trusted marshals the payload through the spec's builder, then appendInitialPacketPayload (under contract)
@@ -999,6 +1032,7 @@ package quic
 //@   props C10
 //@   requires p.uSpec != nil && p.packetPacker != nil && p.packetPacker.cryptoSetup != nil && p.packetPacker.pnManager != nil && p.packetPacker.initialStream != nil && p.initialDatagramIdx >= 0
 //@   requires 0 <= p.packetPacker.initialStream.writeOffset && p.packetPacker.initialStream.writeOffset <= 4611686018427387903 && 0 <= maxSize && maxSize <= 65536
+//@   requires len(p.packetPacker.initialStream.writeBuf) <= 1048576 && len(p.uSpec.InitialPacketSpec.InitialPackets) <= 65536 && forall(k, 0, len(p.uSpec.InitialPacketSpec.InitialPackets), p.uSpec.InitialPacketSpec.InitialPackets[k].PacketSize <= 1048576)
 //@   let ps = p.uSpec.InitialPacketSpec
 //@   let np = len(ps.InitialPackets)
 //@   let cl = old(ite(np == 0, 0, ps.InitialPackets[min(p.initialDatagramIdx, np - 1)].CryptoLength))
